@@ -590,6 +590,14 @@ func (r *collection) addService(service any, lifetime Lifetime, opts ...AddOptio
 	// For result objects, we only register each field as a separate service
 	// They all share the same constructor and will be created together
 	if info.IsResultObject {
+		// As names the interfaces of the one value a constructor produces: it cannot be applied to several outputs
+		if len(options.As) > 0 {
+			return &ValidationError{
+				ServiceType: descriptor.Type,
+				Cause:       fmt.Errorf("godi.As cannot be used with a constructor that produces a result object"),
+			}
+		}
+
 		// No fields to register
 		if len(descriptor.resultFields) == 0 {
 			return nil
@@ -651,6 +659,14 @@ func (r *collection) addService(service any, lifetime Lifetime, opts ...AddOptio
 
 		// If we have multiple non-error returns, register each as a separate service
 		if len(nonErrorReturns) > 1 {
+			// As names the interfaces of the one value a constructor produces: it cannot be applied to several outputs
+			if len(options.As) > 0 {
+				return &ValidationError{
+					ServiceType: descriptor.Type,
+					Cause:       fmt.Errorf("godi.As cannot be used with a constructor that returns several services"),
+				}
+			}
+
 			outputs := make([]*Descriptor, 0, len(nonErrorReturns))
 			for i, ret := range nonErrorReturns {
 				// Create a descriptor for each return type
